@@ -267,3 +267,10 @@ Proof. split; [exact K16Laws|]. exists w16, w16c. split; vm_compute; reflexivity
 Example C17_class_mquarter_inhabited : exists r rc : K16,
   kmul K16Ops r rc = k1 K16Ops /\ kmul K16Ops r r = kmul K16Ops (ks2 K16Ops) (ksub K16Ops (k1 K16Ops) (ki K16Ops)).
 Proof. exists w16c, w16. split; vm_compute; reflexivity. Qed.
+
+(* the tolerance window: a special-cased gate is emitted exactly for exponents within atol = 1e-8 of the class value modulo 2
+   (exponents in units of 1e-10), so the window widens each class by at most atol *)
+Theorem C17_near_mod2_spec : forall e t : Z,
+  near_mod2 e t = true <-> exists k : Z, (Z.abs (e - t - 2 * EUNIT * k) <= ATOL)%Z.
+Proof. exact near_mod2_spec. Qed.
+Print Assumptions C17_near_mod2_spec.
